@@ -99,6 +99,29 @@ def run_cache_rule(ctx, ck, only=None, rule='R-CACHE.owner-only'):
               'cached value depends on %s (not owner %s, not a key %s)' % (bad, s.owner, sorted(s.keys))
               if bad else '%s cache of %s depends only on owner/key' % (s.kind, s.owner))
         n += 1
+        # a value cached on self that is computed from solver state (currents, matrix, power ...) is stale as
+        # soon as that state is recomputed: every function that assigns the state must drop the cache too
+        if s.kind in ('attr-none', 'getattr-none') and s.owner == 'self' and s.func.cls is not None:
+            vol_ = volatile_attrs(ctx) - {s.attr}
+            deps = sorted({x[1].split('.')[1] for x in roots if x[0] == 'attr' and x[1].startswith('self.') and
+                           x[1].count('.') >= 1 and x[1].split('.')[1] in vol_})
+            prog_ = ctx.program
+            for d_ in deps:
+                writers = sorted({e.func.qual for q_, es in prog_.effects.items() for e in es
+                                  if e.attr == d_ and e.mode not in ('read',) and e.cls in (s.func.cls.name, '?')
+                                  and e.func.name != '__init__'})
+                for w_ in writers:
+                    wf = ctx.model.funcs.get(w_)
+                    if wf is None:
+                        continue
+                    from ..rules import self_closure
+                    resets = any(isinstance(n_, ast.Assign) and isinstance(n_.value, ast.Constant) and n_.value.value is None and
+                                 any(isinstance(t_, ast.Attribute) and t_.attr == s.attr for t_ in n_.targets)
+                                 for h_ in self_closure(ctx, wf) for n_ in ast.walk(h_.node))
+                    ck.ob('R-CACHE.invalidate', '%s|%s<-%s' % (k2, d_, w_), resets, wf.loc(),
+                          '%s assigns self.%s and drops the cached self.%s' % (w_, d_, s.attr) if resets else
+                          '%s assigns self.%s, from which the cached self.%s is computed, without resetting the cache: '
+                          'the next reader gets the value of the previous solution' % (w_, d_, s.attr))
         mut = inplace_on_cached(ctx, s)
         if mut or s.kind in ('attr-none', 'dict-key', 'getattr-none'):
             ck.ob('R-CACHE.no-inplace', k2, not mut, s.func.loc(mut[0] if mut else s.store),
@@ -316,6 +339,7 @@ def run(ctx, ck):
     m = ctx.model
     ck.rule('R-CACHE.owner-only', 'cached value depends only on owner, constants and key')
     ck.rule('R-CACHE.no-inplace', 'locals aliasing a cached value are never updated in place')
+    ck.rule('R-CACHE.invalidate', 'a cache computed from solver state is dropped by every function that assigns that state')
     ck.rule('R-CACHE.geometry-only', 'geometry caches have no volatile solver state in their closure')
     ck.rule('R-FRESH.assign-before-update', 'result attribute plainly assigned before in-place update')
     ck.rule('R-FRESH.solve-order', 'compute(): fill -> loads -> rhs -> solve -> power; loads added once')
